@@ -748,6 +748,38 @@ def discharge(hyps, goal, budget=20.0, skolems=(), want_model=True):
     def done(verdict, backend, model=None):
         return {'verdict': verdict, 'backend': backend, 'seconds': round(time.time() - t_start, 3), 'model': model, 'log': log}
 
+    def confirm(insts_):
+        """a 'sat' answer of tier B was obtained on a cone-of-influence subset of the hypotheses; before it is reported as a
+        failure the *whole* (instantiated, eliminated) hypothesis set must be satisfiable too -- an infeasible path whose
+        contradiction lies outside the cone proves the obligation.  returns 'sat' | 'unsat' | 'unknown'"""
+        allh_ = list(plain) + list(insts_)
+        int_h_ = [h for h in allh_ if _int_only_formula(h)]
+        el_ = Elim(IntOracle(int_h_))
+        rest_ = [el_.rw(h) for h in allh_ if not _int_only_formula(h)]
+        gq_ = el_.rw(ng)
+        if not el_.ok: return 'unknown'
+        fs_ = [f for f in (z3.simplify(f) for f in rest_ + el_.congruence() + [gq_] + int_h_) if not z3.is_true(f)]
+        s_ = z3.Solver()
+        for f in fs_: s_.add(f)
+        r_, dt_ = _check(s_, min(budget, 10.0) * 1000)
+        log.append(('confirm:z3-smt-qf(all hypotheses)', r_, round(dt_, 3)))
+        if r_ in ('sat', 'unsat'): return r_
+        if not any(c.sort().kind() == z3.Z3_INT_SORT for f in fs_ for c in free_consts(f).values() if isinstance(c, z3.ExprRef)):
+            rl_ = Relax(); rfs_ = [rl_.rx(f) for f in fs_]
+            if rl_.ok:
+                s_ = z3.Tactic('qfnra-nlsat').solver()
+                for f in rfs_: s_.add(f)
+                r_, dt_ = _check(s_, min(budget, 10.0) * 1000)
+                log.append(('confirm:nlsat(all hypotheses)', r_, round(dt_, 3)))
+                if r_ in ('sat', 'unsat'): return r_
+        return 'unknown'
+
+    def failed_or(backend, model, insts_):
+        c = confirm(insts_)
+        if c == 'sat': return done('failed', backend, model)
+        if c == 'unsat': return done('proved', backend + '+infeasible-path')
+        return None
+
     # Tier A: z3 default solver, quantifiers/arrays/UF intact
     if not nonlin:
         s = z3.Solver()
@@ -802,7 +834,8 @@ def discharge(hyps, goal, budget=20.0, skolems=(), want_model=True):
                 verdict_b1 = r
                 has_int = any(c.sort().kind() == z3.Z3_INT_SORT for f in fs for c in free_consts(f).values() if isinstance(c, z3.ExprRef))
                 if r == 'sat' and not has_int and last:
-                    return done('failed', 'z3-nlsat', model_summary(s.model()) if want_model else None)
+                    v = failed_or('z3-nlsat', model_summary(s.model()) if want_model else None, insts)
+                    if v is not None: return v
                 if not has_int: break
             # B2 (short): the default solver often decides mixed queries at once
             s = z3.Solver()
@@ -811,13 +844,16 @@ def discharge(hyps, goal, budget=20.0, skolems=(), want_model=True):
             log.append(('B2s:z3-smt-qf', r, round(dt, 3)))
             if r == 'unsat': return done('proved', 'z3-smt-qf')
             if r == 'sat' and last:
-                return done('failed', 'z3-smt-qf', model_summary(s.model()) if want_model else None)
+                v = failed_or('z3-smt-qf', model_summary(s.model()) if want_model else None, insts)
+                if v is not None: return v
             # B1b: exact combination (nlsat for the reals, LIA for the index atoms)
             if verdict_b1 != 'unsat':
                 r, its = lazy_combination(fs, budget if last else budget / 2)
                 log.append(('B1b:nlsat+lia', r, its))
                 if r == 'unsat': return done('proved', 'z3-nlsat+lia')
-                if r == 'sat' and last: return done('failed', 'z3-nlsat+lia', None)
+                if r == 'sat' and last:
+                    v = failed_or('z3-nlsat+lia', None, insts)
+                    if v is not None: return v
             # B2: mixed formula, default solver
             s = z3.Solver()
             for f in fs: s.add(f)
@@ -825,7 +861,8 @@ def discharge(hyps, goal, budget=20.0, skolems=(), want_model=True):
             log.append(('B2:z3-smt-qf', r, round(dt, 3)))
             if r == 'unsat': return done('proved', 'z3-smt-qf')
             if r == 'sat' and last:
-                return done('failed', 'z3-smt-qf', model_summary(s.model()) if want_model else None)
+                v = failed_or('z3-smt-qf', model_summary(s.model()) if want_model else None, insts)
+                if v is not None: return v
         else:
             log.append(('B:elim', 'not-applicable', 0))
         if level == 0 and quants:
@@ -833,7 +870,9 @@ def discharge(hyps, goal, budget=20.0, skolems=(), want_model=True):
             r, info = refine_loop(plain, quants, goal, skolems, min(budget, 20.0))
             log.append(('R:cegqi', r, info if not isinstance(info, dict) else 'model'))
             if r == 'unsat': return done('proved', 'z3-smt-cegqi')
-            if r == 'sat': return done('failed', 'z3-smt-cegqi', info if want_model else None)
+            if r == 'sat':
+                v = failed_or('z3-smt-cegqi', info if want_model else None, insts)
+                if v is not None: return v
     # Tier C: everything to the default solver with instances added
     s = z3.Solver()
     for h in plain: s.add(h)
